@@ -484,7 +484,7 @@ func ruleLevelSlots(r *Run, p *Prog, rule, tname, meth, suffix string, levelPara
 					eq = &v
 				}
 			}
-			if fv, base := loadedField(c.X); fv != nil && isNilConst(c.Y) && (isParam(base, f, 0) || isAllocOfParam(base, f, 0)) {
+			if fv, base := loadedField(pa.Resolve(c.X)); fv != nil && isNilConst(c.Y) && (isParam(base, f, 0) || isAllocOfParam(base, f, 0)) {
 				if c.Op == token.NEQ {
 					nonNil = append(nonNil, fv.Name())
 				} else if c.Op == token.EQL {
@@ -496,7 +496,7 @@ func ruleLevelSlots(r *Run, p *Prog, rule, tname, meth, suffix string, levelPara
 		okFwd := true
 		for _, in := range pa.Instrs() {
 			if c, ok := in.(*ssa.Call); ok && c.Call.IsInvoke() {
-				if fv, base := loadedField(c.Call.Value); fv != nil && (isParam(base, f, 0) || isAllocOfParam(base, f, 0)) {
+				if fv, base := loadedField(pa.Resolve(c.Call.Value)); fv != nil && (isParam(base, f, 0) || isAllocOfParam(base, f, 0)) {
 					called = append(called, fv.Name())
 					// forwards the method's own parameters in order
 					for k, a := range c.Call.Args {
@@ -515,7 +515,7 @@ func ruleLevelSlots(r *Run, p *Prog, rule, tname, meth, suffix string, levelPara
 				res := pa.Resolve(ret.Results[0])
 				if len(called) == 1 {
 					if c, isC := res.(*ssa.Call); isC && c.Call.IsInvoke() {
-						if fv, _ := loadedField(c.Call.Value); fv != nil && fv.Name() == called[0] {
+						if fv, _ := loadedField(pa.Resolve(c.Call.Value)); fv != nil && fv.Name() == called[0] {
 							okRes = true
 						}
 					}
